@@ -190,7 +190,8 @@ theorem count_split (P : Peer → Bool) (l : List Peer) (old : Nat) (p0 : Peer)
       split <;> simp [this] <;> omega
 
 /-- **move_peer_preserves / source_ne_target (peers).**  Replacing the peer on `old` by a new peer of
-    the same role on a store that passed `ExcludedFilter(region stores)` and `StoreState{MoveRegion}`
+    the same role on a store that passed `ExcludedFilter(region stores)` and the *strict*
+    `StoreState{MoveRegion}` (no `AllowTemporaryStates`: the target is also connected)
     – the filters present at every move-peer call site – satisfies C11. -/
 theorem move_peer_preserves (x : C11.Input) (o : Opts) (old : Nat) (p0 : Peer) (t : Store)
     (hconf : x.conf = o.conf) (hnd : (x.stores.map (·.id)).Nodup) (hrn : x.region.stores.Nodup)
@@ -198,7 +199,7 @@ theorem move_peer_preserves (x : C11.Input) (o : Opts) (old : Nat) (p0 : Peer) (
     (hex : excludedTarget x.region.stores t = true)
     (hssf : ({ moveRegion := true } : SSF).target o t = true) :
     C11.Holds x [.add t.id (if p0.isLearner then 1 else 0), .remove old] := by
-  obtain ⟨h0, h1, _⟩ := PdModel.Checkers.regionTarget_strict o t hssf
+  obtain ⟨h0, h1, h2, _⟩ := PdModel.Checkers.regionTarget_strict o t hssf
   have hout : t.id ∉ x.region.stores := by simpa [excludedTarget] using hex
   have holdm : old ∈ x.region.stores := hold ▸ List.mem_map.2 ⟨p0, hp0, rfl⟩
   have hne : t.id ≠ old := fun he => hout (he ▸ holdm)
@@ -231,7 +232,7 @@ theorem move_peer_preserves (x : C11.Input) (o : Opts) (old : Nat) (p0 : Peer) (
     simp only [addedStores, List.filterMap_cons, List.filterMap_nil, List.mem_singleton] at ht'
     subst ht'
     refine ⟨?_, by simpa using hout, by simpa [removedStores] using hne⟩
-    simp [C11.upStore, PdModel.Checkers.findStore_of_mem hnd hm, Store.isUp, Store.notDown, h0, hconf, h1]
+    simp [C11.upStore, PdModel.Checkers.findStore_of_mem hnd hm, Store.isUp, Store.notDown, Store.connected, h0, hconf, h1, h2]
   · simp [C11.transfersOK]
 
 /-- **transfer_leader_to_voter / source_ne_target (leaders).**  Handing the leadership to the voter on a
